@@ -19,7 +19,13 @@ RULE = ("graph cases: every directed graph (self-loops included) on <=3 labelled
         "one seeded cycle-closing link appended), 4000 sampled sequences over each of SN+G+G, GN+G+S, SN+GN, SNN+G, GNN+S and "
         "300 over each other 4-object layout; a source is the whole object or one of its attributes at / an / az / ae / af "
         "(a marker object, None, 0, '', False: falsy values must be handed on like any other), 15% of the links get a second "
-        "source from the same component (compute_fn(s.x, s.y)); prefix-name cases: the layouts with 2-3 declarations re-run with component names "
+        "source from the same component (compute_fn(s.x, s.y)); sink cases: every layout with <=2 (thorough <=3) "
+        "constructed objects plus one class group added with instantiate=False (shape GI: never constructed, never a "
+        "source) at every declaration position, every link sequence of length <=2 (thorough <=3) plus sampled longer ones "
+        "that target a parameter of that group at least once - targets that only the final apply_instantiation_links pass "
+        "fills, read back from the returned cfg; histories: in 40% of all link cases the parser is USED (parse_object + "
+        "instantiate_classes) after one or two of the link_arguments calls, most often right before the last (possibly "
+        "cycle-closing) link, before the remaining links are added; prefix-name cases: the layouts with 2-3 declarations re-run with component names "
         "of which some are string prefixes of others (schemes a/ab/b, a/ab/abc, a/a_b/ab, ba/b/a; the permutations of a scheme "
         "are the declaration orders of the names): quick: every link sequence of length <=2 over G G G, S S S, G S G, G G, "
         "S G in all 6 permutations of a/ab/b plus one seeded permutation of each other scheme, one seeded renaming of every "
@@ -43,6 +49,10 @@ ASSUMPTIONS = [
     "are not modelled); sources are components (class group or class-typed argument) as link_arguments requires",
     "when a not-yet-instantiated source Namespace is handed on as a raw link value (possible only outside the guard) the "
     "model stops (outcome Unmodelled); exceptions escaping instantiate_classes are compared by kind 'exception' only",
+    "using the parser between two link_arguments calls has no effect on later calls (the model keeps no state between calls; "
+    "the harness checks exactly this on 40% of the link cases)",
+    "whole class-typed arguments as link targets (add_argument('--top', type=C); link(..., 'top')) are not modelled: link "
+    "targets are constructor parameters of constructed objects or parameters of a never instantiated group",
     "links whose source and target lie in the same class-typed argument (is_nested_instantiation_link) are handed to the "
     "sub-parser by the code; the model only covers the shape the generator produces (attribute of the component itself as "
     "source: rejected by the sub-parser at instantiation, finding nested-self-link)",
@@ -112,14 +122,16 @@ def graph_cases(rng, tier):
 # link cases
 # ---------------------------------------------------------------------------------------------------------------------
 SHAPES = ["G", "S", "SN", "SNN", "GN", "GNN"]
-NUNITS = {"G": 1, "S": 1, "SN": 2, "SNN": 3, "GN": 2, "GNN": 3}
+NUNITS = {"G": 1, "S": 1, "SN": 2, "SNN": 3, "GN": 2, "GNN": 3, "GI": 1}
 
 
 def layout_units(decls):
     """-> (components that can be link sources, [(unit key, target key prefix, enclosing unit or None)])"""
     srcs, units = [], []
     for n, sh in decls:
-        if sh == "G":
+        if sh == "GI":      # instantiate=False: a target only (filled by the final pass), never a source
+            units.append((n, n + ".", None))
+        elif sh == "G":
             srcs.append(n)
             units.append((n, n + ".", None))
         elif sh == "S":
@@ -327,8 +339,48 @@ def prefix_name_cases(rng, tier):
     return cases
 
 
+def sink_cases(rng, tier):
+    """Layouts with one class group added with instantiate=False (shape GI) at every declaration position: its parameters
+    are link targets that only the final apply_instantiation_links pass of instantiate_classes can fill."""
+    cases = []
+    for base in all_layouts(2 if tier == "quick" else 3):
+        if len(base) > 3:
+            continue
+        for pos in range(len(base) + 1):
+            shs = [s for _, s in base]
+            shs.insert(pos, "GI")
+            decls = [[LABELS[i], s] for i, s in enumerate(shs)]
+            nu = sum(NUNITS[s] for _, s in decls)
+            if nu <= 3:
+                seqs, units = link_sequences(decls, 2 if tier == "quick" else 3)
+                more, _ = link_sequences(decls, 6, rng, 15 if tier == "quick" else 60)
+                seqs += more
+            else:
+                seqs, units = link_sequences(decls, 6, rng, 150)
+            sink = LABELS[pos]
+            for seq in seqs:
+                if any(u == sink for _, u in seq):
+                    cases.append(make_case(decls, seq, units, rng))
+    return cases
+
+
+def with_uses(cases, rng):
+    """Link histories interleaved with uses of the parser: in 40% of the cases the parser is used (parse_object +
+    instantiate_classes) after one or two of the link_arguments calls, before the remaining links are added.  The model
+    has no state between calls, so the expected behaviour is that of the same links added back to back."""
+    for c in cases:
+        n = len(c["links"])
+        if n >= 1 and rng.random() < 0.4:
+            k = 1 if n == 1 else rng.randint(1, 2)
+            c["uses"] = sorted(rng.sample(range(1, n + 1), min(k, n)))
+            if c["uses"] == [n] and n > 1 and rng.random() < 0.7:
+                c["uses"] = [n - 1]        # a use right before the last (possibly cycle-closing) link
+    return cases
+
+
 def generate(rng, tier):
-    return link_cases(rng, tier) + prefix_name_cases(rng, tier) + graph_cases(rng, tier)
+    links = link_cases(rng, tier) + prefix_name_cases(rng, tier) + sink_cases(rng, tier)
+    return with_uses(links, rng) + graph_cases(rng, tier)
 
 
 # ---------------------------------------------------------------------------------------------------------------------
@@ -350,10 +402,10 @@ def canon_link_obs(o):
         log = []
         ok = True
         for ev in o["log"]:
-            if ev[0] == "new":
+            if ev[0] in ("new", "cfg"):
                 args = [[i, v] for i, v in ev[2] if v != ["unset"]]
                 ok = ok and all(value_ok(v) for _, v in args)
-                log.append(["new", ev[1], args])
+                log.append([ev[0], ev[1], args])
             else:
                 ok = ok and all(base_ok(v) for v in ev[2])
                 log.append(["call", ev[1], ev[2]])
@@ -415,6 +467,8 @@ def g_value(v):
 
 
 def g_event(ev):
+    if ev[0] == "cfg":
+        return "ECfg %s %s" % (g_str(ev[1]), g_list([g_pair(g_nat(i), g_value(v)) for i, v in ev[2]], "(nat * value)"))
     if ev[0] == "new":
         return "ENew %s %s" % (g_str(ev[1]), g_list([g_pair(g_nat(i), g_value(v)) for i, v in ev[2]], "(nat * value)"))
     return "ECall %s %s" % (g_nat(ev[1]), g_list(["(%s)" % g_base(a) for a in ev[2]], "base"))
@@ -423,6 +477,7 @@ def g_event(ev):
 def term(case, obs):
     if is_link(case):
         ds = g_list(["{| d_name := %s; d_shape := Sh%s |}" % (g_str(n), s) for n, s in case["decls"]], "decl")
+        # case.get("uses") does not enter the term: the model has no state between link_arguments calls and uses
         ls = g_list(["{| l_id := %s; l_srcs := %s; l_target := %s; l_fn := %s |}"
                      % (g_nat(l["id"]), g_list([g_str(s) for s in l["src"]], "str"), g_str(l["tgt"]), g_bool(l["fn"]))
                      for l in case["links"]], "link")
@@ -458,6 +513,7 @@ def describe(case, obs):
     if is_link(case):
         return {"declarations (name, shape; see tie/impl/c16_links.py)": case["decls"],
                 "link_arguments calls in order (apply_on='instantiate')": case["links"],
+                "parser used (parse_object + instantiate_classes) after this many link_arguments calls": case.get("uses", []),
                 "observed": {k: v for k, v in obs.items() if k in ("outcome", "at", "log", "raw_outcome", "msg", "raw_log")}}
     return {"edges_in_insertion_order": case, "DirectedGraph_answer": obs}
 
@@ -465,6 +521,10 @@ def describe(case, obs):
 def shrink(case):
     if is_link(case):
         ls = case["links"]
+        if case.get("uses"):
+            yield {k: v for k, v in case.items() if k != "uses"}
+            for u in case["uses"]:
+                yield dict(case, uses=[x for x in case["uses"] if x != u])
         for i in range(len(ls)):
             yield dict(case, links=ls[:i] + ls[i + 1:])
         for i, l in enumerate(ls):
@@ -500,14 +560,17 @@ META = {
                   "independent Spec/LinkSpec.v demands (each object constructed once, sources first, every linked parameter "
                   "receives the source object / attribute / compute_fn result, compute_fn called once, cycle-closing link "
                   "rejected at that call); C16_small_space_three_links: the same for every 3-link sequence over the layouts with <=2 "
-                  "objects (25,120 cases), both code variants. Three refuted-unguarded witnesses (C16_nested_target_order_refuted, "
-                  "C16_source_under_group_refuted, C16_nested_self_link_refuted) = the three open findings. "
+                  "objects (25,120 cases), both code variants; C16_small_space_final_pass_targets: the same with one class group added "
+                  "with instantiate=False at every declaration position (9,000 cases: targets that only the final pass of "
+                  "instantiate_classes fills, read from the returned cfg). Three refuted-unguarded witnesses (C16_nested_target_order_refuted, "
+                  "C16_source_under_group_refuted, C16_nested_self_link_refuted) = the three findings (two repaired in /repo, nested-self-link open). "
                   "Only exercised by the correspondence (not proved in general): that the values received, the exactly-once "
                   "construction and the compute_fn calls of the model satisfy the spec beyond the small space (longer link "
-                  "sequences, two-source links, four-object nested layouts), and that model = implementation (14.9k cases quick, "
+                  "sequences, two-source links, four-object nested layouts), and that model = implementation (15.4k cases quick, "
                   "~120k thorough: every digraph on <=3 nodes, every loop-free one on 4, all 543 DAGs on four class groups in all "
                   "declaration orders, component names that are string prefixes of one another in all declaration orders, source "
-                  "attributes holding None / 0 / '' / False, two sources from one component).",
+                  "attributes holding None / 0 / '' / False, two sources from one component, never instantiated target groups, uses of the "
+                  "parser interleaved with the link_arguments calls).",
     "level_note": "Trusted: Coq kernel/VM; the hand-written models Model/Graph.v and Model/LinkOrder.v outside the enumerated "
                   "cases (in particular the abstraction of a parser to a list of components with dest/kind/units, and of "
                   "find_subclass_action_or_class_group to resolve_src); the observation harness tie/impl/c16_*.py with its scratch "
